@@ -22,7 +22,8 @@ uint32_t next_int(uint32_t max_value) __CPROVER_requires(max_value >= 1) __CPROV
 double next_double_exclude_zero(void) __CPROVER_assigns() __CPROVER_ensures(__CPROVER_return_value > 0.0 && __CPROVER_return_value < 1.0);
 '''
 BASE = "__CPROVER_requires(__CPROVER_is_fresh(self, sizeof(*self)) && VO_FRESH(self))\n"
-FDIV_RULE = [(r"(\((?:[^()]|\([^()]*\))*\)|[\w>\-\.]+) / (\((?:[^()]|\([^()]*\))*\)|[\w>\-\.]+)", r"FDIV(\1, \2)", "any")]
+import crules
+FDIV_RULE = [(crules.div_to_uf(), "every binary / -> FDIV(left, right)", "any")]
 ITEM = [(r"std::forward<O>\(item\)", "item", "any")]
 NEWITEM = [(r"new \(&self->data_\[([^\]]*)\]\) T\(item\);", r"self->data_[\1] = item;", "any")]
 
